@@ -204,13 +204,17 @@ fn logical_to_arrow_type(logical_type: &str) -> DataType {
 }
 
 // Helper functions to convert ScalarValue to Arrow arrays (used at output boundary)
-fn build_int64_array_from_scalars(values: &[ScalarValue]) -> ArrayRef {
+// Each takes the cells to encode (`None` = no such row), so that the whole-batch path and the
+// row-selection path of `build_record_batch` convert a cell in exactly the same way.
+fn build_int64_array_from_scalars<'a>(
+    values: impl ExactSizeIterator<Item = Option<&'a ScalarValue>>,
+) -> ArrayRef {
     let mut builder = Int64Builder::with_capacity(values.len());
     for value in values {
         match value {
-            ScalarValue::Int64(i) => builder.append_value(*i),
-            ScalarValue::Timestamp(t) => builder.append_value(*t),
-            ScalarValue::Utf8(s) => {
+            Some(ScalarValue::Int64(i)) => builder.append_value(*i),
+            Some(ScalarValue::Timestamp(t)) => builder.append_value(*t),
+            Some(ScalarValue::Utf8(s)) => {
                 if let Ok(i) = s.parse::<i64>() {
                     builder.append_value(i);
                 } else {
@@ -223,13 +227,15 @@ fn build_int64_array_from_scalars(values: &[ScalarValue]) -> ArrayRef {
     Arc::new(builder.finish())
 }
 
-fn build_float64_array_from_scalars(values: &[ScalarValue]) -> ArrayRef {
+fn build_float64_array_from_scalars<'a>(
+    values: impl ExactSizeIterator<Item = Option<&'a ScalarValue>>,
+) -> ArrayRef {
     let mut builder = Float64Builder::with_capacity(values.len());
     for value in values {
         match value {
-            ScalarValue::Float64(f) => builder.append_value(*f),
-            ScalarValue::Int64(i) => builder.append_value(*i as f64),
-            ScalarValue::Utf8(s) => {
+            Some(ScalarValue::Float64(f)) => builder.append_value(*f),
+            Some(ScalarValue::Int64(i)) => builder.append_value(*i as f64),
+            Some(ScalarValue::Utf8(s)) => {
                 if let Ok(f) = s.parse::<f64>() {
                     builder.append_value(f);
                 } else {
@@ -242,30 +248,34 @@ fn build_float64_array_from_scalars(values: &[ScalarValue]) -> ArrayRef {
     Arc::new(builder.finish())
 }
 
-fn build_bool_array_from_scalars(values: &[ScalarValue]) -> ArrayRef {
+fn build_bool_array_from_scalars<'a>(
+    values: impl ExactSizeIterator<Item = Option<&'a ScalarValue>>,
+) -> ArrayRef {
     let mut builder = BooleanBuilder::with_capacity(values.len());
     for value in values {
         match value {
-            ScalarValue::Boolean(b) => builder.append_value(*b),
-            ScalarValue::Utf8(s) => match s.to_ascii_lowercase().as_str() {
+            Some(ScalarValue::Boolean(b)) => builder.append_value(*b),
+            Some(ScalarValue::Utf8(s)) => match s.to_ascii_lowercase().as_str() {
                 "true" | "1" => builder.append_value(true),
                 "false" | "0" => builder.append_value(false),
                 _ => builder.append_null(),
             },
-            ScalarValue::Int64(i) => builder.append_value(*i != 0),
+            Some(ScalarValue::Int64(i)) => builder.append_value(*i != 0),
             _ => builder.append_null(),
         }
     }
     Arc::new(builder.finish())
 }
 
-fn build_timestamp_array_from_scalars(values: &[ScalarValue]) -> ArrayRef {
+fn build_timestamp_array_from_scalars<'a>(
+    values: impl ExactSizeIterator<Item = Option<&'a ScalarValue>>,
+) -> ArrayRef {
     let mut builder = TimestampMillisecondBuilder::with_capacity(values.len());
     for value in values {
         match value {
-            ScalarValue::Timestamp(t) => builder.append_value(*t),
-            ScalarValue::Int64(i) => builder.append_value(*i),
-            ScalarValue::Utf8(s) => {
+            Some(ScalarValue::Timestamp(t)) => builder.append_value(*t),
+            Some(ScalarValue::Int64(i)) => builder.append_value(*i),
+            Some(ScalarValue::Utf8(s)) => {
                 if let Ok(i) = s.parse::<i64>() {
                     builder.append_value(i);
                 } else {
@@ -312,51 +322,16 @@ fn build_record_batch(
             // Build array with only selected row indices
             match data_type {
                 DataType::Int64 => {
-                    let mut builder = Int64Builder::with_capacity(indices.len());
-                    for &idx in indices {
-                        match column.get(idx) {
-                            Some(ScalarValue::Int64(v)) => builder.append_value(*v),
-                            Some(ScalarValue::Timestamp(v)) => builder.append_value(*v),
-                            Some(ScalarValue::Null) => builder.append_null(),
-                            _ => builder.append_null(),
-                        }
-                    }
-                    Arc::new(builder.finish())
+                    build_int64_array_from_scalars(indices.iter().map(|&idx| column.get(idx)))
                 }
                 DataType::Float64 => {
-                    let mut builder = Float64Builder::with_capacity(indices.len());
-                    for &idx in indices {
-                        match column.get(idx) {
-                            Some(ScalarValue::Float64(v)) => builder.append_value(*v),
-                            Some(ScalarValue::Int64(v)) => builder.append_value(*v as f64),
-                            Some(ScalarValue::Null) => builder.append_null(),
-                            _ => builder.append_null(),
-                        }
-                    }
-                    Arc::new(builder.finish())
+                    build_float64_array_from_scalars(indices.iter().map(|&idx| column.get(idx)))
                 }
                 DataType::Boolean => {
-                    let mut builder = BooleanBuilder::with_capacity(indices.len());
-                    for &idx in indices {
-                        match column.get(idx) {
-                            Some(ScalarValue::Boolean(v)) => builder.append_value(*v),
-                            Some(ScalarValue::Null) => builder.append_null(),
-                            _ => builder.append_null(),
-                        }
-                    }
-                    Arc::new(builder.finish())
+                    build_bool_array_from_scalars(indices.iter().map(|&idx| column.get(idx)))
                 }
                 DataType::Timestamp(TimeUnit::Millisecond, _) => {
-                    let mut builder = TimestampMillisecondBuilder::with_capacity(indices.len());
-                    for &idx in indices {
-                        match column.get(idx) {
-                            Some(ScalarValue::Timestamp(v)) => builder.append_value(*v),
-                            Some(ScalarValue::Int64(v)) => builder.append_value(*v),
-                            Some(ScalarValue::Null) => builder.append_null(),
-                            _ => builder.append_null(),
-                        }
-                    }
-                    Arc::new(builder.finish())
+                    build_timestamp_array_from_scalars(indices.iter().map(|&idx| column.get(idx)))
                 }
                 DataType::LargeUtf8 => {
                     // Estimate string capacity
@@ -412,11 +387,11 @@ fn build_record_batch(
         } else {
             // No row_indices - convert entire column
             match data_type {
-                DataType::Int64 => build_int64_array_from_scalars(&column),
-                DataType::Float64 => build_float64_array_from_scalars(&column),
-                DataType::Boolean => build_bool_array_from_scalars(&column),
+                DataType::Int64 => build_int64_array_from_scalars(column.iter().map(Some)),
+                DataType::Float64 => build_float64_array_from_scalars(column.iter().map(Some)),
+                DataType::Boolean => build_bool_array_from_scalars(column.iter().map(Some)),
                 DataType::Timestamp(TimeUnit::Millisecond, _) => {
-                    build_timestamp_array_from_scalars(&column)
+                    build_timestamp_array_from_scalars(column.iter().map(Some))
                 }
                 DataType::LargeUtf8 => build_string_array_from_scalars(&column),
                 _ => build_string_array_from_scalars(&column),
